@@ -206,6 +206,12 @@ class Scenario:
                                 dict(desc, extra=extra[:5], missing=missing[:5]))
             ctx.count("retries_checked", 1, "reach")
             self.state(ev, desc, kind, "after-retry")
+            self.nfaults = getattr(self, "nfaults", 0) + 1
+            if ev.handled or self.nfaults % 4 == 0:
+                # the dependency graph after the failure (and the retry) is the one of the elements now held: nothing of a
+                # failed chain, and every reference an element read - also one read before a callee failed and the failure
+                # was handled by the formula - among its precedents
+                self.graph_after(ev, desc, kind)
             if isinstance(library_self_check(getattr(m, "_impl", None)), AssertionError):
                 raise Violation("%s/sanity-check-failed/%s" % (self.pid, kind), desc)
             sysm = mx.core.mxsys
@@ -227,6 +233,19 @@ class Scenario:
     def call(self, q):
         w = self.mach.world
         return w.op_eval(q)
+
+    def graph_after(self, ev, desc, kind):
+        from .props import c08
+
+        class _View:
+            pass
+        g = _View()
+        g.mach, g.ev, g.ctx = self.mach, ev, self.ctx
+        try:
+            c08.C08.graph(g, {"op": "failure-" + ("handled" if ev.handled else "retried")}, ignore_items=True)
+        except Violation as v:
+            raise Violation("%s/graph-after-failure/%s/%s" % (self.pid, v.sig.split("/", 1)[-1], kind), dict(desc, graph=v.detail))
+        self.ctx.count("graph_checked_after_failure" + ("_handled" if ev.handled else ""), 1, "reach")
 
     def plan_kind(self, plan):
         if plan.get("nones"):
